@@ -40,6 +40,10 @@ pub struct FaultCfg {
     pub double_fault: bool,
     /// secret key that must never survive make_read_only (C12); checked when set
     pub check_secret: bool,
+    /// journal segments longer than this are thinned: all crash points among the first and last
+    /// 24 operations, evenly spaced ones in between (page-scale tree flushes issue thousands of
+    /// homogeneous 40-byte node writes). 0 = never thin.
+    pub thin_over: usize,
 }
 
 pub struct FaultVisitor<'a> {
@@ -340,10 +344,19 @@ impl<'a> Visitor for FaultVisitor<'a> {
         if self.cfg.crash || self.cfg.torn != TornMode::Off {
             let n = jseg.len();
             let mut img = cx.img_before.clone();
+            let thin = self.cfg.thin_over > 0 && n > self.cfg.thin_over;
+            let stride = if thin { (n / 48).max(1) } else { 1 };
+            if thin {
+                self.bump("thinned_long_journal_segments", 1);
+            }
             for p in 0..=n {
                 if p > 0 {
                     apply(&mut img, &jseg[p - 1]);
                 }
+                if thin && p > 24 && p + 24 < n && p % stride != 0 {
+                    continue;
+                }
+                crate::sup::tick();
                 let window = window_name(&jseg, p);
                 if self.cfg.crash {
                     self.bump("crash_points", 1);
